@@ -227,6 +227,60 @@ def auto_safe(f, kind, site):
                         enum = [x for x in walk(it) if x[0] == 'call' and x[1].endswith('::enumerate')]
                         if enum and root_sig(enum[0][2][0]) == recv:
                             return 'tail slice starting one past an index that enumerates the same sequence (start <= len)'
+    if kind in ('index', 'index_mut', 'swap') and hasattr(site, 'args') and len(site.args) >= 2:
+        # `for i in lo..xs.len() { .. xs[i] .. xs[i..] .. xs.swap(i, i + <position within xs[i..]>) }` with xs not resized in the loop
+        recv_t = f.expr_operand(site.args[0], b, 'T')
+        recv = root_sig(recv_t)
+        def range_item(t):
+            """t is the item of a `lo..len(xs)` range over the receiver: returns True"""
+            t = peel(t)
+            if not (t[0] == 'field' and t[2] == '0'):
+                return False
+            src = peel(t[1])
+            if not (src[0] == 'as' and src[2] == 'Some' and peel(src[1])[0] == 'call' and peel(src[1])[1].endswith('::next') and peel(src[1])[2]):
+                return False
+            rngs = [x for x in walk(peel(src[1])[2][0]) if x[0] == 'agg' and 'ops::Range' in str(x[1]) and 'RangeFrom' not in str(x[1]) and 'Inclusive' not in str(x[1]) and len(x[2]) == 2]
+            if len(rngs) != 1:
+                return False
+            hi = peel(rngs[0][2][1])
+            return hi[0] == 'call' and hi[1].split('::')[-1] == 'len' and bool(hi[2]) and root_sig(hi[2][0]) == recv
+        def not_resized():
+            hs = f.loops_containing(b)
+            if not hs:
+                return False
+            body = f.loops()[hs[0]] if isinstance(hs, list) else set()
+            for h in hs:
+                body = body | f.loops()[h]
+            for c in f.calls():
+                if c.b in body and c.args and c.name.split('::')[-1] in ('push', 'pop', 'insert', 'remove', 'swap_remove', 'truncate', 'clear', 'drain', 'retain', 'split_off',
+                                                                          'append', 'extend', 'resize', 'dedup', 'take', 'replace') \
+                        and root_sig(f.expr_operand(c.args[0], c.b, 'T')) == recv:
+                    return False
+            return True
+        i1 = peel(f.expr_operand(site.args[1], b, 'T'))
+        if kind != 'swap':
+            if i1[0] == 'agg' and 'RangeFrom' in str(i1[1]) and i1[2] and range_item(i1[2][0]) and not_resized():
+                return 'tail slice starting at an index drawn from lo..len of the same (not resized) vector (start < len)'
+            if range_item(i1) and not_resized():
+                return 'index drawn from lo..len of the same (not resized) vector'
+        elif len(site.args) == 3 and range_item(i1) and not_resized():
+            i2 = peel(f.expr_operand(site.args[2], b, 'T'))
+            i2 = i2[1] if (i2[0] == 'field' and i2[1][0] == 'bin') else i2
+            if range_item(i2):
+                return 'both positions drawn from lo..len of the same (not resized) vector'
+            if i2[0] == 'bin' and i2[1].startswith('Add'):
+                parts = [peel(i2[2]), peel(i2[3])]
+                base = [p_ for p_ in parts if canon(p_) == canon(i1)]
+                off = [p_ for p_ in parts if canon(p_) != canon(i1)]
+                if len(base) == 1 and len(off) == 1:
+                    o = off[0]
+                    # offset = position(..) within xs[i..]  (< len - i)
+                    if o[0] == 'field' and o[2] == '0' and peel(o[1])[0] == 'as' and peel(peel(o[1])[1])[0] == 'call' and peel(peel(o[1])[1])[1].split('::')[-1] == 'position':
+                        it = peel(peel(o[1])[1])[2][0]
+                        tails = [x for x in walk(it) if x[0] == 'call' and x[1].split('::')[-1] in ('index', 'index_mut') and len(x[2]) == 2 and root_sig(x[2][0]) == recv
+                                 and peel(x[2][1])[0] == 'agg' and 'RangeFrom' in str(peel(x[2][1])[1]) and canon(peel(peel(x[2][1])[2][0])) == canon(i1)]
+                        if tails:
+                            return 'swap(i, i + position within xs[i..]): both below len of the same (not resized) vector'
     if kind in ('unwrap', 'expect') and hasattr(site, 'args') and site.args:
         recv = peel(f.expr_operand(site.args[0], b, 'T'))
         if recv[0] == 'call' and recv[1].split('::')[-1] in ('split_first', 'split_last', 'first', 'last', 'first_mut', 'last_mut') and recv[2]:
@@ -341,6 +395,11 @@ def r1_panic_inventory(ctx):
             continue
         seen.add(key)
         why, recheck = ent
+        if recheck is not None and not recheck(f, b):
+            alt = auto_safe(f, kind, site)
+            if alt:
+                ctx.ok('may-panic construct discharged by a general argument: %s' % alt, where, key)
+                continue
         if recheck is not None:
             ctx.check(bool(recheck(f, b)), 'justification-broken:%s' % key, 'justified may-panic construct: %s — dominating test re-checked' % why, where, key)
         else:
